@@ -168,7 +168,9 @@ def run_case(case):
                     (y.pow(2).mean() + 0.1 * ld.mean()).backward()
                     opt.step()
                     opt.zero_grad()
-                    if not all(bool(torch.isfinite(p_).all()) for p_ in subj.parameters()):
+                    with torch.no_grad():
+                        w_ok = bool(torch.isfinite(subj.weight()).all()) and bool(torch.isfinite(subj.logabsdet()).all())
+                    if not w_ok or not all(bool(torch.isfinite(p_).all()) for p_ in subj.parameters()):
                         res.inconclusive += 1     # the drawn learning rate made the update diverge: nothing left to compare
                         res.labels.append("diverged")
                         return res
